@@ -350,7 +350,14 @@ func runC13(c *Ctx) {
 									if !ok || ci3 == ci {
 										continue
 									}
-									if p.isMethodCallOn(ci3, set, map[string]bool{"Write": true, "WriteAt": true, "Truncate": true, "Seek": true, "WriteString": true}) && reachableAfter(fn, ci, ci3, nil, nil) {
+									if !reachableAfter(fn, ci, ci3, nil, nil) {
+										continue
+									}
+									if p.isMethodCallOn(ci3, set, map[string]bool{"Close": true, "Commit": true}) {
+										continue
+									}
+									// any other use of the file after Commit: method call or passed to a callee (io.Copy(f, …))
+									if usesValue(ci3, set) {
 										bad = true
 									}
 								}
